@@ -75,8 +75,8 @@ pub struct Trace {
     pub par_calls: usize,
     /// number of `point` calls reached by workers
     pub points: usize,
-    /// labels of points in the order they were passed: (worker, label)
-    pub labels: Vec<(u8, &'static str)>,
+    /// points in the order they were passed: (worker, label, source line of the acquisition)
+    pub labels: Vec<(u8, &'static str, u32)>,
 }
 
 impl Trace {
@@ -103,8 +103,6 @@ enum WStatus {
 enum Baton {
     None,
     Run(usize),
-    Probe(usize),
-    ProbeDone,
     Main,
 }
 
@@ -115,8 +113,9 @@ struct Inner {
     // per parallel call
     remaining: Vec<usize>,
     w: Vec<WStatus>,
+    /// workers found not ready since the last progress (lazy readiness, see `point`)
+    blocked: Vec<bool>,
     baton: Baton,
-    probe_result: bool,
 }
 
 struct Exec {
@@ -176,12 +175,17 @@ impl Exec {
     }
 
     /// Called (with the lock held) by whoever gives up control.  Sets `baton`.
-    fn schedule_next<'a>(
-        &'a self,
-        mut g: MutexGuard<'a, Inner>,
-        me: Option<usize>,
-        my_ready: Option<&dyn Fn() -> bool>,
-    ) -> MutexGuard<'a, Inner> {
+    ///
+    /// Readiness is evaluated lazily: a parked worker is offered as a candidate without asking
+    /// it; when it receives the baton it evaluates its own `ready()` (the closure lives on its
+    /// stack) and, if the lock it is about to take is held by a parked worker, marks itself
+    /// blocked and passes the baton on by the deterministic fallback rule below (`pass_on`),
+    /// without recording a decision.  Blocked marks are cleared whenever anybody makes progress.
+    /// In code that never parks while holding a lock no worker is ever blocked, so this costs
+    /// nothing; in code that does, some alternatives of a decision lead to the same execution
+    /// (explored twice, never missed), and replay stays deterministic because readiness is a
+    /// function of the schedule so far.
+    fn schedule_next<'a>(&'a self, mut g: MutexGuard<'a, Inner>, me: Option<usize>) -> MutexGuard<'a, Inner> {
         loop {
             if g.trace.abort.is_some() {
                 g.baton = Baton::None;
@@ -192,69 +196,10 @@ impl Exec {
                 g.trace.abort = Some(Abort::Horizon);
                 continue;
             }
-            let nw = g.w.len();
-            if g.remaining.is_empty() {
-                for x in 0..nw {
-                    if matches!(g.w[x], WStatus::Idle | WStatus::Fresh) {
-                        g.w[x] = WStatus::Done;
-                    }
-                }
-            }
-            let order: Vec<usize> = match me {
-                Some(m) => std::iter::once(m).chain((0..nw).filter(|&x| x != m)).collect(),
-                None => (0..nw).collect(),
-            };
-            let mut cands: Vec<usize> = Vec::with_capacity(nw);
-            let mut blocked: Vec<(usize, &'static str)> = vec![];
-            let mut fresh_seen = false;
-            for x in order {
-                match g.w[x] {
-                    WStatus::Parked { label, has_ready } => {
-                        let ok = if !has_ready {
-                            true
-                        } else if Some(x) == me {
-                            my_ready.map(|r| r()).unwrap_or(true)
-                        } else {
-                            g.baton = Baton::Probe(x);
-                            self.cv.notify_all();
-                            while g.baton != Baton::ProbeDone {
-                                g = self.wait(g);
-                            }
-                            g.baton = Baton::None;
-                            g.probe_result
-                        };
-                        if ok {
-                            cands.push(x)
-                        } else {
-                            blocked.push((x, label))
-                        }
-                    }
-                    WStatus::Idle => {
-                        if !g.remaining.is_empty() {
-                            cands.push(x)
-                        }
-                    }
-                    WStatus::Fresh => {
-                        // fresh workers are interchangeable: only the lowest id is enabled
-                        if !g.remaining.is_empty() && !fresh_seen {
-                            fresh_seen = true;
-                            cands.push(x)
-                        }
-                    }
-                    WStatus::Running | WStatus::Done => {}
-                }
-            }
-            // canonical order: `me` first if still enabled, then ascending ids
-            if let Some(m) = me {
-                let me_first = cands.first() == Some(&m);
-                let start = if me_first { 1 } else { 0 };
-                cands[start..].sort_unstable();
-            } else {
-                cands.sort_unstable();
-            }
+            let cands = self.candidates(&mut g, me);
             if cands.is_empty() {
-                if !blocked.is_empty() {
-                    g.trace.abort = Some(Abort::Deadlock(format!("blocked: {blocked:?}")));
+                if let Some(d) = self.deadlock_report(&g) {
+                    g.trace.abort = Some(Abort::Deadlock(d));
                     continue;
                 }
                 g.baton = Baton::Main;
@@ -275,8 +220,91 @@ impl Exec {
         }
     }
 
-    /// Waits until this worker holds the baton.  Answers probes meanwhile.
-    /// Returns `None` when the worker has to stop (retired, or the execution is aborted).
+    /// enabled workers in canonical order: `me` first if still enabled, then ascending ids
+    fn candidates(&self, g: &mut Inner, me: Option<usize>) -> Vec<usize> {
+        let nw = g.w.len();
+        if g.remaining.is_empty() {
+            for x in 0..nw {
+                if matches!(g.w[x], WStatus::Idle | WStatus::Fresh) {
+                    g.w[x] = WStatus::Done;
+                }
+            }
+        }
+        let mut cands: Vec<usize> = Vec::with_capacity(nw);
+        let mut fresh_seen = false;
+        for x in 0..nw {
+            match g.w[x] {
+                WStatus::Parked { .. } => {
+                    if !g.blocked[x] {
+                        cands.push(x)
+                    }
+                }
+                WStatus::Idle => {
+                    if !g.remaining.is_empty() {
+                        cands.push(x)
+                    }
+                }
+                WStatus::Fresh => {
+                    // fresh workers are interchangeable: only the lowest id is enabled
+                    if !g.remaining.is_empty() && !fresh_seen {
+                        fresh_seen = true;
+                        cands.push(x)
+                    }
+                }
+                WStatus::Running | WStatus::Done => {}
+            }
+        }
+        if let Some(m) = me {
+            if let Some(pos) = cands.iter().position(|&x| x == m) {
+                cands.remove(pos);
+                cands.insert(0, m);
+            }
+        }
+        cands
+    }
+
+    fn deadlock_report(&self, g: &Inner) -> Option<String> {
+        let blocked: Vec<(usize, &'static str)> = g
+            .w
+            .iter()
+            .enumerate()
+            .filter_map(|(x, s)| match s {
+                WStatus::Parked { label, .. } => Some((x, *label)),
+                _ => None,
+            })
+            .collect();
+        if blocked.is_empty() {
+            None
+        } else {
+            Some(format!("blocked: {blocked:?}"))
+        }
+    }
+
+    /// `id` received the baton but the lock it wants is held: mark it blocked and pass the baton
+    /// to the next non-blocked candidate after it (cyclically by id); no decision is recorded.
+    fn pass_on<'a>(&'a self, mut g: MutexGuard<'a, Inner>, id: usize) -> MutexGuard<'a, Inner> {
+        g.blocked[id] = true;
+        let cands = self.candidates(&mut g, None);
+        if cands.is_empty() {
+            let d = self.deadlock_report(&g).unwrap_or_default();
+            g.trace.abort = Some(Abort::Deadlock(d));
+            g.baton = Baton::None;
+        } else {
+            let next = cands.iter().copied().find(|&x| x > id).unwrap_or(cands[0]);
+            g.baton = Baton::Run(next);
+        }
+        self.cv.notify_all();
+        g
+    }
+
+    fn progress(&self, g: &mut Inner) {
+        for b in g.blocked.iter_mut() {
+            *b = false;
+        }
+    }
+
+    /// Waits until this worker holds the baton (and, at a point, until the lock it wants is
+    /// free).  Returns `None` when the worker has to stop (retired, or the execution aborted).
     fn wait_for_turn<'a>(
         &'a self,
         mut g: MutexGuard<'a, Inner>,
@@ -287,14 +315,12 @@ impl Exec {
             if g.trace.abort.is_some() || g.w[id] == WStatus::Done {
                 return None;
             }
-            match g.baton {
-                Baton::Run(x) if x == id => return Some(g),
-                Baton::Probe(x) if x == id => {
-                    g.probe_result = ready.map(|r| r()).unwrap_or(true);
-                    g.baton = Baton::ProbeDone;
-                    self.cv.notify_all();
+            if g.baton == Baton::Run(id) {
+                if ready.map(|r| r()).unwrap_or(true) {
+                    return Some(g);
                 }
-                _ => {}
+                g = self.pass_on(g, id);
+                continue;
             }
             g = self.wait(g);
         }
@@ -304,6 +330,11 @@ impl Exec {
 /// Scheduling point.  Called by the library hooks (through `yui::verif::point`) immediately
 /// before a lock acquisition; `ready` says whether that acquisition would succeed right now.
 pub fn point(label: &'static str, ready: Option<&dyn Fn() -> bool>) {
+    point_at(label, 0, ready)
+}
+
+/// Same, with the source line of the acquisition (for readable traces).
+pub fn point_at(label: &'static str, line: u32, ready: Option<&dyn Fn() -> bool>) {
     let Some(ctx) = cur() else { return };
     let Some(id) = ctx.worker else { return };
     let exec = &*ctx.exec;
@@ -314,12 +345,13 @@ pub fn point(label: &'static str, ready: Option<&dyn Fn() -> bool>) {
     }
     g.trace.points += 1;
     g.w[id] = WStatus::Parked { label, has_ready: ready.is_some() };
-    let g = exec.schedule_next(g, Some(id), ready);
+    let g = exec.schedule_next(g, Some(id));
     match exec.wait_for_turn(g, id, ready) {
         Some(mut g) => {
             g.w[id] = WStatus::Running;
+            exec.progress(&mut g);
             if g.trace.labels.len() < 4096 {
-                g.trace.labels.push((id as u8, label));
+                g.trace.labels.push((id as u8, label, line));
             }
         }
         None => resume_unwind(Box::new(AbortToken)),
@@ -358,7 +390,8 @@ fn worker_main(exec: &Exec, id: usize, body: &(dyn Fn(usize) + Sync)) {
 
         let mut g = exec.lock();
         g.w[id] = WStatus::Idle;
-        drop(exec.schedule_next(g, Some(id), None));
+        exec.progress(&mut g);
+        drop(exec.schedule_next(g, Some(id)));
     }));
     let mut g = exec.lock();
     if let Err(p) = r {
@@ -370,10 +403,82 @@ fn worker_main(exec: &Exec, id: usize, body: &(dyn Fn(usize) + Sync)) {
         }
     }
     g.w[id] = WStatus::Done;
+    exec.progress(&mut g);
     if g.trace.abort.is_some() {
         g.baton = Baton::None;
     }
     exec.cv.notify_all();
+}
+
+// ---- persistent worker pool ----------------------------------------------------------------
+// One pool per calling (shard) thread, created on first use and kept until that thread exits.
+// Persistent workers (a) make an execution cost a few context switches instead of W thread
+// creations (thread creation/teardown serialises on the process-wide mmap lock and triggers TLB
+// shoot-downs, which made 16 concurrent explorers slower than one), and (b) behave like rayon's
+// pool: the same OS threads serve consecutive parallel calls, so thread-local state left behind
+// by one call is visible to the next.
+
+struct Job {
+    exec: Arc<Exec>,
+    id: usize,
+    body: &'static (dyn Fn(usize) + Sync),
+}
+
+struct Pool {
+    workers: Vec<std::sync::mpsc::Sender<Job>>,
+    done_tx: std::sync::mpsc::Sender<()>,
+    done_rx: std::sync::mpsc::Receiver<()>,
+}
+
+thread_local! {
+    static POOL: RefCell<Option<Pool>> = const { RefCell::new(None) };
+}
+
+fn pool_run(exec: &Arc<Exec>, nw: usize, body: &(dyn Fn(usize) + Sync)) {
+    // SAFETY: the reference is only used by the pool workers while they execute this call's
+    // jobs; `pool_run` does not return before every one of the `nw` jobs has reported
+    // completion through `done_rx` (workers send only after `worker_main` has returned and
+    // dropped the job), so the erased lifetime never outlives the real borrow.
+    #[allow(unsafe_code)]
+    let body_static: &'static (dyn Fn(usize) + Sync) = unsafe { std::mem::transmute(body) };
+    POOL.with(|p| {
+        let mut p = p.borrow_mut();
+        let pool = p.get_or_insert_with(|| {
+            let (done_tx, done_rx) = std::sync::mpsc::channel();
+            Pool { workers: vec![], done_tx, done_rx }
+        });
+        while pool.workers.len() < nw {
+            let id = pool.workers.len();
+            let (tx, rx) = std::sync::mpsc::channel::<Job>();
+            let done = pool.done_tx.clone();
+            std::thread::Builder::new()
+                .name(format!("vworker-{id}"))
+                .spawn(move || {
+                    while let Ok(job) = rx.recv() {
+                        let Job { exec, id, body } = job;
+                        CUR.with(|c| *c.borrow_mut() = Some(Ctx { exec: exec.clone(), worker: Some(id) }));
+                        worker_main(&exec, id, body);
+                        CUR.with(|c| *c.borrow_mut() = None);
+                        drop(exec);
+                        if done.send(()).is_err() {
+                            break;
+                        }
+                    }
+                })
+                .expect("spawn pool worker");
+            pool.workers.push(tx);
+        }
+        for id in 0..nw {
+            pool.workers[id].send(Job { exec: exec.clone(), id, body: body_static }).expect("pool worker gone");
+        }
+        {
+            let g = exec.lock();
+            drop(exec.schedule_next(g, None));
+        }
+        for _ in 0..nw {
+            pool.done_rx.recv().expect("pool worker gone");
+        }
+    });
 }
 
 /// Entry point of every parallel terminal.
@@ -401,23 +506,10 @@ pub fn run(n: usize, body: &(dyn Fn(usize) + Sync)) {
         g.trace.par_calls += 1;
         g.remaining = (0..n).collect();
         g.w = vec![WStatus::Fresh; nw];
+        g.blocked = vec![false; nw];
         g.baton = Baton::None;
     }
-    std::thread::scope(|s| {
-        for id in 0..nw {
-            let exec = exec.clone();
-            std::thread::Builder::new()
-                .name(format!("vworker-{id}"))
-                .spawn_scoped(s, move || {
-                    CUR.with(|c| *c.borrow_mut() = Some(Ctx { exec: exec.clone(), worker: Some(id) }));
-                    worker_main(&exec, id, body);
-                    CUR.with(|c| *c.borrow_mut() = None);
-                })
-                .expect("spawn worker");
-        }
-        let g = exec.lock();
-        drop(exec.schedule_next(g, None, None));
-    });
+    pool_run(&exec, nw, body);
     let mut g = exec.lock();
     g.w.clear();
     g.remaining.clear();
@@ -442,8 +534,8 @@ pub fn run_scheduled<T>(cfg: &Config, prefix: &[u32], f: impl FnOnce() -> T) -> 
             payload: None,
             remaining: vec![],
             w: vec![],
+            blocked: vec![],
             baton: Baton::None,
-            probe_result: true,
         }),
         cv: Condvar::new(),
     });
